@@ -105,7 +105,8 @@ pub enum AOp {
 pub enum PollWhen { Now, Early, Exact, Late(u64), Far }
 
 const TIDS: [u128; 3] = [0x1111, 0x2222_0000_0000_0000_0000_0001, 0xffff_ffff_ffff_ffff_ffff_ffff];
-fn addr(i: usize) -> SocketAddr { ["10.0.0.2:3478", "10.0.0.3:3478", "[2001:db8::7]:5000", "10.0.0.2:9"][i % 4].parse().unwrap() }
+// index 4: an IPv4-mapped IPv6 address - a different SocketAddr from 10.0.0.2:3478 (a destination must never be "canonicalised", round 6)
+fn addr(i: usize) -> SocketAddr { ["10.0.0.2:3478", "10.0.0.3:3478", "[2001:db8::7]:5000", "10.0.0.2:9", "[::ffff:10.0.0.2]:3478"][i % 5].parse().unwrap() }
 fn local() -> SocketAddr { "10.0.0.1:1000".parse().unwrap() }
 const KEYS: [&str; 2] = ["remote-key", "other-key"];
 
@@ -113,9 +114,9 @@ pub fn gen_history(rng: &mut Rng, len: usize) -> Vec<AOp> {
     let mut h = vec![];
     for _ in 0..len {
         h.push(match rng.below(16) {
-            0 | 1 | 2 => AOp::Send { t: rng.below(3) as usize, class: if rng.below(5) == 0 { rng.range(1, 3) as u8 } else { 0 }, sealed: rng.below(3) as u8, to: rng.below(4) as usize },
+            0 | 1 | 2 => AOp::Send { t: rng.below(3) as usize, class: if rng.below(5) == 0 { rng.range(1, 3) as u8 } else { 0 }, sealed: rng.below(3) as u8, to: rng.below(5) as usize },
             3 | 4 | 5 | 6 | 7 => AOp::PollAt(match rng.below(6) { 0 => PollWhen::Now, 1 => PollWhen::Early, 2 | 3 => PollWhen::Exact, 4 => PollWhen::Late(rng.range(1, 5000)), _ => PollWhen::Far }),
-            8 | 9 | 10 => AOp::Handle { kind: rng.below(11) as u8, t: rng.below(3) as usize, from: rng.below(4) as usize },
+            8 | 9 | 10 => AOp::Handle { kind: rng.below(11) as u8, t: rng.below(3) as usize, from: rng.below(5) as usize },
             11 => AOp::Cancel(rng.below(3) as usize),
             12 => AOp::CancelRetrans(rng.below(3) as usize),
             13 | 14 => AOp::Configure { t: rng.below(3) as usize, rto: *rng.pick(&[1u64, 100, 500, 1000, 60000, 7]), n: rng.below(9) as u32, last: *rng.pick(&[0u64, 1, 300, 8000, 60000]) },
@@ -310,7 +311,7 @@ pub fn run_history(h: &[AOp], transport: TransportType, base: Instant, errs: &mu
             let want = m.out.get(&tid).map(|r| r.to);
             if real != want { bad!(if real.is_some() != want.is_some() { "C05:outstanding" } else { "C18:peer-address" }, "request_transaction({:#x}) = {:?}, abstract agent says {:?}", tid, real, want); }
         }
-        for i in 0..4 { if agent.is_validated_peer(addr(i)) != m.peers.contains(&addr(i)) { bad!("C15:validated", "is_validated_peer({}) = {}, abstract agent says {}", addr(i), agent.is_validated_peer(addr(i)), m.peers.contains(&addr(i))); } }
+        for i in 0..5 { if agent.is_validated_peer(addr(i)) != m.peers.contains(&addr(i)) { bad!("C15:validated", "is_validated_peer({}) = {}, abstract agent says {}", addr(i), agent.is_validated_peer(addr(i)), m.peers.contains(&addr(i))); } }
         if agent.is_validated_peer(local()) { bad!("C15:validated", "local address became validated"); }
     }
     let _ = (&m.transport, &m.local);
